@@ -208,6 +208,40 @@ def toFmtArgs : HlslAst.Exprs → Option Format.Args
     | _, _ => none
 end
 
+/-! ## the value of a constant through export and re-reading -/
+
+/-- `parse_literal` with payloads: `IntUntyped(i) ↦ IntLiteral(i as i128)`, `IntUnsigned32(i) ↦ UInt32(i as u32)`,
+    floats and booleans unchanged (`Gen.FixpointTables.parseLiteralTable`, `Thm.C04.reread_payloads_as_modelled`) -/
+def rereadConst : HlslAst.Lit → Ir.Const
+  | .bool b => .bool b
+  | .intUntyped n => .intLit n
+  | .intUnsigned32 n => .uint32 (BitVec.ofNat 32 n)
+  | .float32 b => .float32 b
+  | .floatUntyped b => .floatLit b
+
+/-- constant evaluation of `-literal` for the kinds a printed negative constant can have (`evaluate_constexpr`,
+    `Minus`: integers negate exactly in `i128`, floats flip the sign bit) -/
+def negConst : Ir.Const → Option Ir.Const
+  | .intLit v => some (.intLit (-v))
+  | .float32 b => some (.float32 (b ^^^ 0x80000000#32))
+  | .floatLit b => some (.floatLit (b ^^^ 0x8000000000000000#64))
+  | _ => none
+
+/-- the literal shortcut of `ImplicitConversion::apply` with its payload, for the one re-tagging that happens to
+    re-read constants: `IntLiteral(v) ↦ Int32(v as i32)`; every other printed kind is read back as its own kind -/
+def retagTo (k : Scalar) (c : Ir.Const) : Option Ir.Const :=
+  match k, c with
+  | .int32, .intLit v => some (.int32 (BitVec.ofInt 32 v))
+  | _, _ => if constScalar c = k then some c else none
+
+/-- a constant exported (`generate_literal`), read back (`parse_literal`), its sign folded in again, and given back
+    the kind the skeleton has at that leaf -/
+def leafBack (c : Ir.Const) : Option Ir.Const :=
+  match GenHlsl.genLiteral c with
+  | .ok (.lit l) => retagTo (constScalar c) (rereadConst l)
+  | .ok (.un .Minus (.lit l)) => (negConst (rereadConst l)).bind (retagTo (constScalar c))
+  | _ => none
+
 /-- the second-generation elaboration of one expression position: the exported tree is read back, elaborated by
     `parse_expr` and converted to the type the position requires (`ctx`: the variable's type for an initialiser, the
     return type for `return`; conditions and expression statements are not converted) -/
